@@ -8,6 +8,9 @@ import (
 	"fmt"
 	"math/rand/v2"
 	"net"
+	"os"
+	"os/exec"
+	"path/filepath"
 	"sort"
 	"strings"
 	"sync"
@@ -418,6 +421,9 @@ func runC19(c *ev.ChildEnv, res *ev.Result) {
 	if c.Batch == 2%c.Batches {
 		c19Slow(c, res)
 	}
+	if c.Batch == 3%c.Batches {
+		c19DroppedLaunched(c, res)
+	}
 	rounds := tierN(c.Tier, 12, 200) / c.Batches
 	for i := 0; i < rounds; i++ {
 		tag := fmt.Sprintf("c19b%dr%d", c.Batch, i)
@@ -589,6 +595,88 @@ func c19DuringStart(c *ev.ChildEnv, res *ev.Result) {
 		res.Violate("C19/update-from-synchronize", fmt.Sprintf("update issued from the Synchronize handler: update err=%v, callback invocations=%d, argument equal=%v, failed list equal=%v, events received afterwards=%d", uerr2, got.Load(), updatesEqual(arg, sent2), updatesEqual(failed2, wantFailed2), events.Load()), nil)
 	}
 	res.Seen("update-from-synchronize")
+}
+
+// c19DroppedLaunched: a request during which a plugin launched by the runtime dies (dropping it means killing
+// and reaping a process) while another plugin's update waits for its turn. The update callback (300 ms long)
+// must not run inside the request: if the callback starts after a handler of the request ran and also
+// finishes before the request returns, it ran while the request was still being processed.
+func c19DroppedLaunched(c *ev.ChildEnv, res *ev.Result) {
+	probe := filepath.Join(c.Dir, "probe")
+	build := exec.Command("go", "build", "-tags", "verif", "-o", probe, "./cmd/probe")
+	build.Dir = filepath.Join(ev.VerifDir, "harness")
+	if out, err := build.CombinedOutput(); err != nil {
+		res.Note("building the probe plugin failed: %v %s", err, out)
+		return
+	}
+	for round := 0; round < 3; round++ {
+		root := filepath.Join(c.Dir, fmt.Sprintf("launched%d", round))
+		plugins := filepath.Join(root, "plugins")
+		os.MkdirAll(plugins, 0o755)
+		os.MkdirAll(filepath.Join(root, "reports"), 0o755)
+		os.Link(probe, filepath.Join(plugins, "50-dielater-x"))
+		rt, err := rig.NewRuntime(root, rig.WithAdaptationOptions(adaptation.WithPluginPath(plugins)))
+		if err != nil {
+			res.Note("runtime: %v", err)
+			return
+		}
+		var cbStart, cbEnd, firstHandler atomic.Int64
+		rt.UpdateFn = func(_ context.Context, u []*api.ContainerUpdate) ([]*api.ContainerUpdate, error) {
+			cbStart.Store(rig.Tick())
+			time.Sleep(300 * time.Millisecond)
+			cbEnd.Store(rig.Tick())
+			return nil, nil
+		}
+		if err := rt.Start(); err != nil {
+			res.Note("start: %v", err)
+			return
+		}
+		func() {
+			defer rt.Stop()
+			res.Eval()
+			id := fmt.Sprintf("dropped-launched-%d", round)
+			var p *rig.Plugin
+			updDone := make(chan struct{})
+			p = rig.NewPlugin("updater", "10", 0, rig.Handlers{
+				Create: func(_ context.Context, _ *api.PodSandbox, ctr *api.Container) (*api.ContainerAdjustment, []*api.ContainerUpdate, error) {
+					if ctr.GetId() == id {
+						firstHandler.Store(rig.Tick())
+						go func() { // waits for the adaptation lock, which this request holds
+							defer close(updDone)
+							p.Stub.UpdateContainers([]*api.ContainerUpdate{{ContainerId: id + "-upd"}})
+						}()
+						time.Sleep(60 * time.Millisecond) // the update is waiting by the time the next plugin is invoked and dies
+					}
+					return nil, nil, nil
+				},
+			})
+			if err := p.Connect(rt.Sock); err != nil || !p.WaitSynced(20*time.Second) {
+				res.Note("c19DroppedLaunched: updater did not register: %v", err)
+				res.Inconcl()
+				return
+			}
+			defer p.StopStub()
+			rt.A.BlockPluginSync().Unblock()
+			b := rt.A.BlockPluginSync()
+			_, cerr := rt.A.CreateContainer(context.Background(), &api.CreateContainerRequest{Pod: &api.PodSandbox{Id: "p"}, Container: &api.Container{Id: id, PodSandboxId: "p"}})
+			ret := rig.Tick()
+			b.Unblock()
+			if rig.Await(updDone, 5*time.Second, 30*time.Second) == "hang" {
+				res.Violate("C19/hang", "an update issued during a request that dropped a launched plugin never returned; goroutines:\n"+nriStacks(), nil)
+				return
+			}
+			fh, s0, e0 := firstHandler.Load(), cbStart.Load(), cbEnd.Load()
+			if cerr != nil || fh == 0 || s0 == 0 {
+				res.Note("c19DroppedLaunched: request err=%v, handler tick %d, callback tick %d", cerr, fh, s0)
+				res.Inconcl()
+				return
+			}
+			if s0 > fh && e0 < ret {
+				res.Violate("C19/update-during-request", fmt.Sprintf("the update callback (300 ms) started after a plugin had been invoked for a creation request (tick %d > %d) and finished before that request returned (tick %d < %d): it ran while the request was being processed (the request dropped a launched plugin that died)", s0, fh, e0, ret), nil)
+			}
+			res.Seen("update-waiting-while-launched-plugin-dropped")
+		}()
+	}
 }
 
 // c19Slow: the callback's result reaches the plugin unchanged also when the callback (or the wait for the
